@@ -10,18 +10,21 @@ EXTENDS CfgObs, Json, IOUtils, TLC
 Rec == ndJsonDeserialize(IOEnv.TRACE)
 VARIABLE l
 
-GraphOK(e, P) == GraphMatches(e.nodes, e.edges, e.entries, P)
-
-\* A program that is not well-formed is outside the property's quantifier: it is skipped (and
-\* counted by the driver), never blamed on the graph builder.
-EventOK(e) ==
-  IF ~WellFormed(e.program) THEN PrintT(<<"SKIP", l>>)
-  ELSE e.panic = "" /\ GraphOK(e, e.program)
+\* Verdict: "" accepted; "skip": the program is not well-formed, i.e. outside the property's
+\* quantifier (skipped and counted by the driver, never blamed on the graph builder); otherwise
+\* the reason of the rejection.
+Verdict(e) ==
+  IF ~WellFormed(e.program) THEN "skip"
+  ELSE IF e.panic # "" THEN "get_program_cfg panicked"
+  ELSE GraphDiff(e.nodes, e.edges, e.entries, e.program)
 
 Init == l = 1
 Next == /\ l <= Len(Rec)
         /\ l' = l + 1
-        /\ IF EventOK(Rec[l]) THEN TRUE ELSE PrintT(<<"BAD", l>>)
+        /\ LET v == Verdict(Rec[l]) IN
+           CASE v = "" -> TRUE
+             [] v = "skip" -> PrintT(<<"SKIP", l>>)
+             [] OTHER -> PrintT(<<"BAD", l, v>>)
 Spec == Init /\ [][Next]_l
 Accepted == TLCGet("stats").diameter - 1 = Len(Rec)
 Post == IF Accepted THEN TRUE ELSE PrintT(<<"UNCONSUMED", TLCGet("stats").diameter>>) /\ FALSE
